@@ -41,15 +41,34 @@ def run(rep, tier, seed):
     cases = loadcheck.explore(rep, "MC_C11", n, prelude="Pre", invariants=loadcheck.INVARIANTS + ["FaultRefused"],
                               label="MC_C11 one fault after up to %d valid items, 3 metadata variants" % (n - 1))
     loadcheck.replay_cases(rep, cases, seed, sections=("ops",), fingerprint=fingerprint, judge=judge, strict_cls=True)
+    # include-call faults (wrong number of modes, also with repeated modes; wrong, missing or surplus keywords; arguments to a non-template)
+    from . import c07
+    cfg = loadcheck.cfg_text(2, "Mains", "FaultMenu", emit=False, invariants=["IllFormedCallRefused"], props=[], fs="FS7", basedir="W", extra_consts="CONSTRAINT EmitI\n")
+    r7 = common.run_tlc("MC_C07", cfg, timeout=3000)
+    common.require_ok(r7, "MC_C07")
+    rep.add_tlc(r7, "MC_C07 ill-formed calls of included programs (10 faults x 9 include layouts)")
+    if r7.violated:
+        raise common.MachineryError("MC_C07: the specification does not refuse an ill-formed call: %s" % r7.violated)
+    files = r7.tagged("FILES")[0]
+    seen = {}
+    for c in r7.tagged("CASE"):
+        if c["out"]["k"] == "raise":
+            seen.setdefault(json.dumps(c["s"], sort_keys=True), c)
+    inc_cases = list(seen.values())
+    for c in inc_cases:
+        c["files"] = files
+    loadcheck.replay_cases(rep, inc_cases, seed, sections=("ops",), fingerprint=fingerprint, judge=c07.judge, strict_cls=False)
+    rep.cov["include_call_fault_cases"] = len(inc_cases)
     kinds = {}
-    for c in cases:
+    for c in cases + inc_cases:
         if c["out"]["k"] == "raise":
             key = c["out"]["cls"] + ":" + c["out"]["id"]
             kinds[key] = kinds.get(key, 0) + 1
     rep.cov["refusals_by_class"] = kinds
     rep.cov["rule"] = ("valid prefixes of up to %d items followed by one fault: undefined name in 17 slots (positional, expression, keyword, list element, "
                        "mode, index, array name, loop list, loop body, initialisers, array elements, metadata options), 11 reserved declaration names, "
-                       "9 non-integer modes, 7 complex-into-real declarations, 7 loop values of the wrong type" % (n - 1))
+                       "9 non-integer modes, 7 complex-into-real declarations, 7 loop values of the wrong type; plus 10 ill-formed calls of included programs "
+                       "(mode count incl. repeated modes, wrong/missing/surplus keywords, arguments to a non-template) under 9 include layouts" % (n - 1))
     rep.assumptions += ["for undefined/reserved names the exception must be BlackbirdSyntaxError containing the identifier and 'line L:C' (C 0- or 1-based); "
                         "for the other faults any exception counts as refusal"]
 
